@@ -1205,7 +1205,7 @@ fn run_mirror_nonfinite(ctx: &mut Ctx, rep: &mut Report, index: &mut u64) {
     let quick = ctx.quick();
     rep.space(
         "mirror_nonfinite",
-        "product: ALL DNA sequences over {A,C,T,G,N} of length 0..=5 (3906; thorough 0..=6, 19531) x every scoring matrix of width 1..=3 over a 4-row menu of small-integer cells mixed with NaN, +inf and -inf cells \
+        "product: ALL DNA sequences over {A,C,T,G,N} of length 0..=5 (3906; thorough 0..=6, 19531) plus four sequences of 33, 40, 70 and 100 symbols x every scoring matrix of width 1..=3 over a 4-row menu of small-integer cells mixed with NaN, +inf and -inf cells \
          (\"any content\"; built with ScoringMatrix::new) x {generic pipeline, dispatcher arms generic / sse2 / avx2} x {pipeline score_into, scalar ScoringMatrix::score_position} x striped-sequence layouts {configured once; configured for a wider motif first; hand-built with two spare sequence rows}. \
          Oracle: the IEEE sum of a window's cells has the same class in every summation order (NaN if a NaN cell or both infinities occur, else +inf / -inf / the exact integer sum): \
          position i of m on s and position L-M-i of rc(m) on rc(s) both equal that value (NaN matches NaN)",
@@ -1214,7 +1214,11 @@ fn run_mirror_nonfinite(ctx: &mut Ctx, rep: &mut Report, index: &mut u64) {
     let specs: Vec<MatSpec> = pm::matrices_upto(ir.len(), 3).into_iter().map(|idx| MatSpec::Int(idx.iter().map(|&i| ir[i].clone()).collect())).collect();
     let prepared = prepare_nonfinite(specs);
     let wrap = 2;
-    let words = pm::all_words_upto(if quick { 5 } else { 6 }, 5);
+    let mut words = pm::all_words_upto(if quick { 5 } else { 6 }, 5);
+    // a few sequences longer than one striped row (the layouts only differ from each other there): 33, 40, 70 and 100 symbols
+    for &l in &[33usize, 40, 70, 100] {
+        words.push((0..l).map(|i| if i % 11 == 10 { 4u8 } else { ((i * i + 3 * i + l) % 4) as u8 }).collect());
+    }
     for (si, seq) in words.iter().enumerate() {
         let idx = *index;
         *index += 1;
